@@ -340,7 +340,13 @@ def _history_case(ctx, drv, rng, i, n_sub):
                 if not q.need_calibration:
                     continue
                 fresh_data = gm.random_inputs(mb, rng, n=rng.randint(1, 2))   # new data every session
-                for sig, samples in fresh_data.items():
+                sessions = list(fresh_data.items())
+                if len(sessions) > 1 and rng.random() < 0.35:
+                    # only SOME signatures are calibrated in this session: the result keeps empty placeholders for the others, and it is
+                    # the caller's object all the same (quantize() may refuse it; it may not edit it)
+                    sessions = sessions[:rng.randint(1, len(sessions) - 1)]
+                    ctx.tag("partial_calibration_session")
+                for sig, samples in sessions:
                     d0, p0 = snap(samples), (None if shared_cr is None else snap(shared_cr))
                     prev = shared_cr
                     new = q.calibrate(samples, signature_key=sig, previous_calibration_result=prev)
@@ -355,7 +361,7 @@ def _history_case(ctx, drv, rng, i, n_sub):
                 rec_now = copy.deepcopy(q.get_quantization_recipe())
                 cr_in = shared_cr
                 c0 = None if cr_in is None else snap(cr_in)
-                large = rng.random() < 0.3    # the large-model serialisation path (threshold lowered by the hook) is a path like any other
+                large = rng.random() < (0.65 if i % 3 == 2 else 0.3)    # the large-model serialisation path (threshold lowered by the hook) is a path like any other
                 if large:
                     os.environ[ENVVAR] = "0"
                     ctx.tag("large_path")
